@@ -7,6 +7,30 @@ VERIF = os.path.dirname(os.path.dirname(os.path.abspath(__file__)))
 props = [json.loads(l) for l in open(os.path.join(VERIF, "properties.jsonl"))]
 
 CLAIMED = {
+    "C13": dict(
+        category="translation_validation",
+        text="Round-trip validation per document: the real code exports each generated routine (uncompiled and compiled), the export "
+             "is reloaded through the pydantic schema, re-imported and re-compiled, and each pair is compared inside Coq for equal "
+             "structure (names, nesting, types, ports, connections, links incl. multi-level targets, repetition kind and fields) and "
+             "mathematically equal expressions at rational points. Small closed lemmas cover the dotted-name split on which deep "
+             "links rest. This is validation of each translated document, not a theorem over all documents: a Gallina model of "
+             "to_qref/from_qref would mostly restate pydantic field plumbing; the one recorded finding (F13) is pinned in the corpus.",
+        design_ref="DESIGN.md section 5 C13",
+        note="Trusted: pydantic/qref schema validation; expression text round trip is C12's subject (expressions compared by value here).",
+        technique="differential round-trip validation with semantic comparison inside Coq (vm_compute) + Coq string lemmas",
+    ),
+    "C14": dict(
+        category="other",
+        text="Monitored differential runs of the real code: each case in six processes (five PYTHONHASHSEED values cold, one after 25 "
+             "unrelated compilations), every API call made twice with deep snapshots of all arguments before and after, exported "
+             "documents compared byte for byte; plus one closed theorem (the processing/export order of children is a complete "
+             "topological listing and a function of the document alone) and an in-Coq check that every exported child order is a "
+             "topological listing of the source's children. The property is about runtime state (aliasing, caches, hash "
+             "randomisation) that an executable Gallina model cannot exhibit, so the claim is a test, partial by nature.",
+        design_ref="DESIGN.md section 5 C14, section 8",
+        note="Trusted: the harness's process orchestration and sha256 comparison of exports; pickle/model_dump_json as snapshot oracles.",
+        technique="monitored multi-process differential runs (test) + one Coq theorem on the deterministic processing order",
+    ),
     "C17": dict(
         category="proof",
         text="Closed theorems: any reported verification problem makes compile_routine fail with a compilation error before "
